@@ -11,7 +11,8 @@ import (
 
 // domain wire: the MQTT decoder the broker uses (module cache: modelled, not verified), fed a byte string followed by
 // end of input, the way conn.go feeds it a connection that is then closed. One canonical line per `dec <hex>`:
-//   panic | err | connect … | publish … | puback m | … | other
+//
+//	panic | err | connect … | publish … | puback m | … | other
 type wireDomain struct{}
 
 func init() {
